@@ -200,8 +200,8 @@ def items(tier, seed):
     # (e) CEM
     for bi in range(len(BOXES)):
         out.append(dict(name=f"cem-sample-box{bi}", part="cem_sample", box=bi, seed=seed))
-    for bi in range(len(BOXES2)):
-        out.append(dict(name=f"cem-update-p4-box{bi}", part="cem_update", box=bi, pop=4, alphas=[0.0, 0.1, 0.25, 1.0],
+    for bi, al in itertools.product(range(len(BOXES2)), [0.0, 0.1, 0.25, 1.0]):
+        out.append(dict(name=f"cem-update-p4-box{bi}-alpha{al}", part="cem_update", box=bi, pop=4, alphas=[al],
                         mean_fracs="all", block=None))
     for lo, hi in chunks(len(weak_orders(5)) + len(cem_nonfinite(5)), 150):
         out.append(dict(name=f"cem-update-p5-[{lo}:{hi}]", part="cem_update", box=1, pop=5,
